@@ -293,6 +293,67 @@ proof fn lemma_recip_new(d: u64, s: u32)
     }
 }
 
+// ---------------------------------------------------------------- limb-by-limb long division
+/// the limb shifted out by shl_limb is below the normalised divisor
+proof fn lemma_divlimb_init(usv: int, hi: int, uv: int, ps: int, dv: int, n: nat)
+    requires usv + hi * bp(n) == uv * ps, 0 <= usv, 0 <= uv < bp(n), ps > 0, dv >= 1, hi >= 0
+    ensures hi < ps, hi < dv * ps
+{
+    let p = bp(n);
+    assert(uv * ps < p * ps) by (nonlinear_arith) requires uv < p, ps > 0;
+    assert(hi < ps) by (nonlinear_arith) requires hi * p < p * ps, p > 0;
+    assert(dv * ps >= ps) by (nonlinear_arith) requires dv >= 1, ps > 0;
+}
+
+/// one step of the schoolbook loop: bring down limb j, append quotient limb qj
+proof fn lemma_divlimb_step(qo: Seq<Limb>, qn: Seq<Limb>, us: Seq<Limb>, j: nat, n: nat, dn: int, r: int, qj: int, rj: int, total: int)
+    requires
+        j < n,
+        forall|k: int| j < k < n ==> qn[k] == qo[k],
+        qn[j as int].0 as int == qj,
+        qj * dn + rj == r * B() + us[j as int].0 as int,
+        tv(qo, j + 1, n) * dn + r * bp(j + 1) + val(us, j + 1) == total,
+    ensures
+        tv(qn, j, n) * dn + rj * bp(j) + val(us, j) == total,
+{
+    lemma_tv_ext(qo, qn, j + 1, n);
+    lemma_val_step(qn, j);
+    lemma_val_step(us, j);
+    lemma_bp_succ(j);
+    let t = tv(qo, j + 1, n); let p = bp(j); let x = us[j as int].0 as int; let b = B();
+    assert(tv(qn, j, n) == t + qj * p);
+    assert((t + qj * p) * dn + rj * p == t * dn + r * (b * p) + x * p) by (nonlinear_arith)
+        requires qj * dn + rj == r * b + x;
+}
+
+/// the (discarded) quotient word of div2by1 is a u64 value determined by the inputs
+proof fn lemma_divlimb_quot(r: int, x: int, dn: int, rj: int)
+    requires dn > 0, 0 <= r < dn, 0 <= x < B(), rj == (r * B() + x) % dn
+    ensures ({ let q = (r * B() + x) / dn; 0 <= q < B() && q * dn + rj == r * B() + x })
+{
+    let b = B(); let y = r * b + x; let q = y / dn;
+    lemma_fundamental_div_mod(y, dn);
+    lemma_mod_bound(y, dn);
+    assert(dn * q == q * dn) by (nonlinear_arith);
+    lemma_d21_uu_bound(b, r, x, dn);
+    assert(y >= 0) by (nonlinear_arith) requires y == r * b + x, r >= 0, x >= 0, b > 0;
+    assert(q < b) by (nonlinear_arith) requires q * dn + rj == y, y < dn * b, rj >= 0, dn > 0;
+    assert(q >= 0) by (nonlinear_arith) requires q * dn + rj == y, y >= 0, rj < dn, dn > 0;
+}
+
+/// undo the normalisation: Q*(dv*2^s) + r == U*2^s  ==>  Q*dv + r/2^s == U
+proof fn lemma_divlimb_final(qv: int, r: int, uv: int, dv: int, ps: int)
+    requires ps > 0, qv * (dv * ps) + r == uv * ps, 0 <= r < dv * ps
+    ensures qv * dv + r / ps == uv, 0 <= r / ps < dv
+{
+    let x = uv - qv * dv;
+    assert(x * ps == r) by (nonlinear_arith) requires x == uv - qv * dv, qv * (dv * ps) + r == uv * ps;
+    lemma_div_multiples_vanish(x, ps);
+    assert(ps * x == x * ps) by (nonlinear_arith);
+    assert(x < dv) by (nonlinear_arith) requires x * ps < dv * ps, ps > 0;
+    assert(x >= 0) by (nonlinear_arith) requires x * ps >= 0, ps > 0;
+}
+
 //@@ subst \b(Self|Uint)::(ZERO|ONE|MAX|BITS|LOG2_BITS)\b(?!\() => \1::\2()
 //@@ subst \bUint::<(\w+)>::(ZERO|ONE|MAX|BITS)\b(?!\() => Uint::<\1>::\2()
 //@@ fn src/uint/div_limb.rs | - | reciprocal | stub | props C02 C11
@@ -381,7 +442,9 @@ pub const fn shift(&self) -> (ret__: u32)
 pub const fn div2by1(u1: Word, u0: Word, reciprocal: &Reciprocal) -> (ret__: (Word, Word))
 //@+
     requires reciprocal.wf(), u1 < reciprocal.divisor_normalized
-    ensures ret__.0 as int * reciprocal.divisor_normalized as int + ret__.1 as int == u1 as int * B() + u0 as int, ret__.1 < reciprocal.divisor_normalized
+    ensures ret__.0 as int * reciprocal.divisor_normalized as int + ret__.1 as int == u1 as int * B() + u0 as int, ret__.1 < reciprocal.divisor_normalized,
+        ret__.0 as int == (u1 as int * B() + u0 as int) / (reciprocal.divisor_normalized as int),
+        ret__.1 as int == (u1 as int * B() + u0 as int) % (reciprocal.divisor_normalized as int),
 //@-
 {
     let d = reciprocal.divisor_normalized;
@@ -434,6 +497,7 @@ pub const fn div2by1(u1: Word, u0: Word, reciprocal: &Reciprocal) -> (ret__: (Wo
 //@+
     proof {
         assert((q11 as int + 1) * d as int == q11 as int * d as int + d as int) by (nonlinear_arith);
+        lemma_fundamental_div_mod_converse(u1 as int * B() + u0 as int, d as int, q1 as int, r as int);
     }
 //@-
     (q1, r)
@@ -524,8 +588,7 @@ pub const fn div3by2(
     quo
 }
 //@@ end
-//@@ fn src/uint/div_limb.rs | - | div_rem_limb_with_reciprocal | stub | props C02 C11
-#[verifier::external_body]
+//@@ fn src/uint/div_limb.rs | - | div_rem_limb_with_reciprocal | body | props C02 C11
 pub const fn div_rem_limb_with_reciprocal<const L: usize>(
     u: &Uint<L>,
     reciprocal: &Reciprocal,
@@ -535,11 +598,51 @@ pub const fn div_rem_limb_with_reciprocal<const L: usize>(
     ensures ret__.0.v() * reciprocal.dv() + ret__.1.0 as int == u.v(), (ret__.1.0 as int) < reciprocal.dv()
 //@-
 {
-    unimplemented!()
+    let (u_shifted, u_hi) = u.shl_limb(reciprocal.shift);
+    let mut r = u_hi.0;
+    let mut q = [Limb::ZERO; L];
+//@+
+    let ghost dn = reciprocal.divisor_normalized as int;
+    let ghost ps = p2(reciprocal.shift as nat);
+    let ghost total = u.v() * ps;
+    proof {
+        lemma_val_bound(u.limbs@, L as nat); lemma_val_bound(u_shifted.limbs@, L as nat);
+        lemma_pow2_pos(reciprocal.shift as nat);
+        lemma_divlimb_init(u_shifted.v(), u_hi.0 as int, u.v(), ps, reciprocal.dv(), L as nat);
+        assert(tv(q@, L as nat, L as nat) * dn == 0);
+    }
+//@-
+    let mut j = L;
+    while j > 0
+//@+
+        invariant
+            0 <= j <= L, reciprocal.wf(), dn == reciprocal.divisor_normalized as int, r < reciprocal.divisor_normalized,
+            tv(q@, j as nat, L as nat) * dn + r as int * bp(j as nat) + val(u_shifted.limbs@, j as nat) == total,
+        decreases j
+//@-
+    {
+        j -= 1;
+        let (qj, rj) = div2by1(r, u_shifted.as_limbs()[j].0, reciprocal);
+//@+
+        let ghost qold = q@; let ghost r_old = r;
+//@-
+        q[j] = Limb(qj);
+        r = rj;
+//@+
+        proof { lemma_divlimb_step(qold, q@, u_shifted.limbs@, j as nat, L as nat, dn, r_old as int, qj as int, rj as int, total); }
+//@-
+    }
+//@+
+    proof {
+        lemma_bp1();
+        lemma_divlimb_final(val(q@, L as nat), r as int, u.v(), reciprocal.dv(), ps);
+        lemma_u64_shr_div(r, reciprocal.shift);
+    }
+//@-
+    (Uint::<L>::new(q), Limb(r >> reciprocal.shift))
 }
 //@@ end
-//@@ fn src/uint/div_limb.rs | - | rem_limb_with_reciprocal | stub | props C02 C11 C15
-#[verifier::external_body]
+//@@ fn src/uint/div_limb.rs | - | rem_limb_with_reciprocal | body | props C02 C11 C15
 pub const fn rem_limb_with_reciprocal<const L: usize>(
     u: &Uint<L>,
     reciprocal: &Reciprocal,
@@ -549,7 +652,55 @@ pub const fn rem_limb_with_reciprocal<const L: usize>(
     ensures ret__.0 as int == u.v() % reciprocal.dv()
 //@-
 {
-    unimplemented!()
+    let (u_shifted, u_hi) = u.shl_limb(reciprocal.shift);
+    let mut r = u_hi.0;
+//@+
+    let ghost dn = reciprocal.divisor_normalized as int;
+    let ghost ps = p2(reciprocal.shift as nat);
+    let ghost total = u.v() * ps;
+    let ghost mut q: Seq<Limb> = Seq::new(L as nat, |k: int| Limb(0));
+    proof {
+        lemma_val_bound(u.limbs@, L as nat); lemma_val_bound(u_shifted.limbs@, L as nat);
+        lemma_pow2_pos(reciprocal.shift as nat);
+        lemma_divlimb_init(u_shifted.v(), u_hi.0 as int, u.v(), ps, reciprocal.dv(), L as nat);
+        assert(tv(q, L as nat, L as nat) * dn == 0);
+    }
+//@-
+    let mut j = L;
+    while j > 0
+//@+
+        invariant
+            0 <= j <= L, reciprocal.wf(), dn == reciprocal.divisor_normalized as int, r < reciprocal.divisor_normalized,
+            q.len() == L,
+            tv(q, j as nat, L as nat) * dn + r as int * bp(j as nat) + val(u_shifted.limbs@, j as nat) == total,
+        decreases j
+//@-
+    {
+        j -= 1;
+//@+
+        let ghost r_old = r;
+//@-
+        let (_, rj) = div2by1(r, u_shifted.as_limbs()[j].0, reciprocal);
+        r = rj;
+//@+
+        proof {
+            let qj = (r_old as int * B() + u_shifted.limbs@[j as int].0 as int) / dn;
+            lemma_divlimb_quot(r_old as int, u_shifted.limbs@[j as int].0 as int, dn, rj as int);
+            let qold = q;
+            q = q.update(j as int, Limb(qj as u64));
+            lemma_divlimb_step(qold, q, u_shifted.limbs@, j as nat, L as nat, dn, r_old as int, qj, rj as int, total);
+        }
+//@-
+    }
+//@+
+    proof {
+        lemma_bp1();
+        lemma_divlimb_final(val(q, L as nat), r as int, u.v(), reciprocal.dv(), ps);
+        lemma_u64_shr_div(r, reciprocal.shift);
+        lemma_fundamental_div_mod_converse(u.v(), reciprocal.dv(), val(q, L as nat), r as int / ps);
+    }
+//@-
+    Limb(r >> reciprocal.shift)
 }
 //@@ end
 //@@ fn src/uint/div_limb.rs | - | rem_limb_with_reciprocal_wide | stub | props C02 C11
